@@ -186,6 +186,9 @@ P_C15L(pre, e) ==
           LET left == {o \in LeftLiveWhileIncomplete(pre, e.st) : Has(e.st.mkt, e.st.ord[o].mid)}
           IN Ck("C15", "RemovedOnlyAfterComplete", left = {}, left))
     /\ Ck("C15", "LiveInBlotter", LiveNotInBlotter(e.st) = {}, LiveNotInBlotter(e.st))
+    \* the view by bet id returns the very object for every replacement / adopted order (once its bet id is known)
+    /\ Ck("C15", "BetIdViewHolds", \A o \in DOMAIN e.st.ord : e.st.ord[o].inst = e.st.instance => e.st.ord[o].bybet,
+          {o \in DOMAIN e.st.ord : e.st.ord[o].inst = e.st.instance /\ ~e.st.ord[o].bybet})
     \* every order adopted from the order stream is in the blotter of its market, once (at quiescent points, where
     \* adoption is due: the latest image has been processed)
     /\ (Quiescent(e) =>
